@@ -174,6 +174,10 @@ def ref(e: Any) -> tuple[Any, str]:
         for kd, _ in kids:
             d = d * kd
         return d, (MURK if murky else NON)
+    if isinstance(e, MinMaxBase) and all(a.is_number or isinstance(a, SymQuantity) for a in e.args):
+        # sympy can order numbers and quantities and normally folds such a node; whether it does
+        # depends on its assumption cache, so nothing is required of a node it left unevaluated
+        raise Murky("min/max of comparable operands left unevaluated by sympy")
     if isinstance(e, (sp.Add, MinMaxBase)):
         plain = [kd for kd, s in kids if s == NON]
         murk = [kd for kd, s in kids if s == MURK]
@@ -191,6 +195,8 @@ def ref(e: Any) -> tuple[Any, str]:
         return pool[0], (MURK if murky else NON)
     if isinstance(e, sp.Pow):
         (bd, bs), (ed, es) = kids
+        if isinstance(ed, dims.DimVec) and ed.symbolic:
+            raise Murky("exponent whose own dimension has a symbolic exponent")
         if es == NON and not ed.dimensionless:
             raise Err("exponent", f"exponent of dimension {ed}")
         if es == MURK and not ed.dimensionless:
@@ -201,6 +207,8 @@ def ref(e: Any) -> tuple[Any, str]:
         if isinstance(bd, dims.AnyDim):
             raise Murky("power of an absorbing base")
         ex = e.exp
+        if ex.atoms(SymQuantity) and not isinstance(ex, SymQuantity):
+            raise Murky("exponent expression containing a quantity")
         if ex.atoms(SymQuantity):
             ex = ex.xreplace({q: q.scale_factor for q in ex.atoms(SymQuantity)})
         if ex.has(sp.oo) or ex.has(-sp.oo) or ex.has(sp.nan) or not (ex.is_real or
@@ -212,7 +220,9 @@ def ref(e: Any) -> tuple[Any, str]:
     if isinstance(e, sp.Function):
         if e.func in _DIM:
             return _DIM[e.func], NON
-        return dims.ONE, (MURK if murky else NON)
+        if murky:
+            raise Murky("elementary function of a zero / infinite argument")
+        return dims.ONE, NON
     raise Murky(f"node {type(e).__name__}")
 
 
@@ -333,6 +343,8 @@ def judge(e: Any, wrappers: bool) -> tuple[str, str]:
         label = "murky-accepted"
     else:
         label = "ok"
+    if status != NON and values.is_absorbing(sp.sympify(gexpr)):
+        return label, ""  # the result is zero / infinite: any dimension
     if not isinstance(wd, dims.AnyDim):
         gd = lib_dim(gdim)
         if not dims.same(gd, wd):
